@@ -23,6 +23,18 @@ __all__ = [
 FAILURE_CODE = 422
 
 
+def _first_split(converter: Converter, prefix: str, identifier: str) -> tuple[str, str]:
+    """Split at the first delimiter, like the rest of the library.
+
+    The route patterns match the prefix greedily, so for a path like ``doi:a:b`` they
+    bind ``doi:a`` and ``b``.
+    """
+    prefix, delimiter, rest = prefix.partition(converter.delimiter)
+    if delimiter:
+        identifier = f"{rest}{delimiter}{identifier}"
+    return prefix, identifier
+
+
 def get_flask_blueprint(converter: Converter, **kwargs: Any) -> flask.Blueprint:
     """Get a blueprint for :class:`flask.Flask`.
 
@@ -77,6 +89,7 @@ def get_flask_blueprint(converter: Converter, **kwargs: Any) -> flask.Blueprint:
     @blueprint.route(f"/<prefix>{converter.delimiter}<path:identifier>")
     def resolve(prefix: str, identifier: str) -> Response:
         """Resolve a CURIE."""
+        prefix, identifier = _first_split(converter, prefix, identifier)
         location = converter.expand_pair(prefix, identifier)
         if location is None:
             prefixes = "".join(f"\n- {p}" for p in sorted(converter.get_prefixes()))
@@ -210,7 +223,7 @@ def get_fastapi_router(converter: Converter, **kwargs: Any) -> fastapi.APIRouter
 
     api_router = APIRouter(**kwargs)
 
-    @api_router.get(f"/{{prefix}}{converter.delimiter}{{identifier}}")
+    @api_router.get(f"/{{prefix}}{converter.delimiter}{{identifier:path}}")
     def resolve(
         prefix: str = Path(
             title="Prefix",
@@ -223,6 +236,7 @@ def get_fastapi_router(converter: Converter, **kwargs: Any) -> fastapi.APIRouter
         ),
     ) -> RedirectResponse:
         """Resolve a CURIE."""
+        prefix, identifier = _first_split(converter, prefix, identifier)
         location = converter.expand_pair(prefix, identifier)
         if location is None:
             prefixes = ", ".join(sorted(converter.get_prefixes()))
